@@ -71,6 +71,9 @@ def inputs(tier):
                                 "b2": {f"g{i}": i for i in range(14)}}], None))
     out.append(("permuted_variants", [{"items": [{"a": 1, "b": 2}, {"c": "x"}], "m": {"k1": {"a": 1, "b": 2}, "k2": {"c": 1}}},
                                       {"items": [{"b": 2, "a": 1}, {"c": "y"}], "m": {"k1": {"b": 2, "a": 1}, "k2": {"c": 2}}}], [r"k\d"]))
+    out.append(("permuted_equal", [{"items": [{"a": 1, "b": 2, "c": 3}, {"z": "x", "y": 1}], "m": {"k1": {"p": 1, "q": 2}, "k2": {"r": "s"}}},
+                                   {"items": [{"c": 3, "b": 2, "a": 1}, {"y": 1, "z": "x"}], "m": {"k1": {"q": 2, "p": 1}, "k2": {"r": "s"}}},
+                                   {"items": [{"b": 2, "a": 1, "c": 3}, {"z": "x", "y": 1}], "m": {"k1": {"p": 1, "q": 2}, "k2": {"r": "s"}}}], [r"k\d"]))
     out.append(("permuted_variants3", [{"items": [{"a": 1, "b": 2, "c": 3}, 5, {"z": "x"}]}, {"items": [{"c": 3, "b": 2, "a": 1}, {"z": "y"}, 5]},
                                        {"items": [5, {"b": 2, "c": 3, "a": 1}, {"z": "x"}]}], None))
     for n in range(1, len(LIT_POOL) + 1):
